@@ -512,6 +512,10 @@ func (d *decoderImpl) tryCustom(v reflect.Value) (consume bool, err error) {
 			if err := value.RLPDecodeSelf(d); err == nil {
 				return true, d.flush()
 			} else {
+				if err == ErrNilValue && d.child != nil {
+					// nil inside the value's own list, not a nil value
+					err = cerrors.Wrap(ErrInvalidFormat, "InvalidFormat(NilInCustom)")
+				}
 				return true, err
 			}
 		case ReadSelfer:
